@@ -110,15 +110,19 @@ structure InvP (s : St) : Prop where
   panic : s.panic = .none
   second : s.second = true → s.k = .ncDone ∨ s.k = .ncChan ∨ s.k = .entry ∨ s.k = .ret
   nice : s.k = .nice ∨ s.k = .niceLk → s.r = .dead
+  rParked : s.r = .parked → s.doneClosed = false
+  nParked : s.n = .parked → s.ncDoneClosed = false
   procs : if s.nc = true then s.o = .absent ∧ s.n ≠ .absent
           else s.n = .absent ∧ s.w = .absent ∧ s.k ≠ .ncDone ∧ s.k ≠ .ncChan
 
 theorem inv_invP (s : St) (h : inv s = true) : InvP s := by
   simp only [inv, wf, Bool.and_eq_true, decide_eq_true_eq] at h
-  obtain ⟨⟨⟨⟨⟨⟨⟨⟨⟨h1, h2⟩, h3⟩, h4⟩, h5⟩, h6⟩, h7⟩, h8⟩, h9⟩, h10⟩ := h
-  refine ⟨h1.symm, h2.symm, h3.symm, h4.symm, h5.symm, h6.symm, h7, ?_, ?_, ?_⟩
+  obtain ⟨⟨⟨⟨⟨⟨⟨⟨⟨⟨⟨h1, h2⟩, h3⟩, h4⟩, h5⟩, h6⟩, h7⟩, h8⟩, h9⟩, h11⟩, h12⟩, h10⟩ := h
+  refine ⟨h1.symm, h2.symm, h3.symm, h4.symm, h5.symm, h6.symm, h7, ?_, ?_, ?_, ?_, ?_⟩
   · intro hs; simp [hs] at h8; rcases h8 with ((h | h) | h) | h <;> simp [h]
   · intro hk; rcases hk with hk | hk <;> simp [hk] at h9 <;> exact h9
+  · intro hr; simpa [hr] using h11
+  · intro hn; simpa [hn] using h12
   · cases hn : s.nc <;> simp [hn] at h10 ⊢ <;> simp [h10]
 
 theorem inv_noPanic (s : St) (h : inv s = true) : s.panic = .none := (inv_invP s h).panic
@@ -150,12 +154,12 @@ theorem stepW_nil (s : St) (h : stepW s = []) : s.w = .absent ∨ s.w = .ret := 
   split at h <;> simp_all
 
 theorem stepN_nil (s : St) (h : stepN s = []) :
-    s.n = .absent ∨ s.n = .dead ∨ (s.n = .parked ∧ s.ncDoneClosed = false) := by
+    s.n = .absent ∨ s.n = .dead ∨ s.n = .parked := by
   unfold stepN at h
   split at h <;> (try split at h) <;> (try split at h) <;> simp_all
 
 theorem stepR_nil (s : St) (h : stepR s = []) :
-    s.r = .dead ∨ (s.r = .parked ∧ s.doneClosed = false)
+    s.r = .dead ∨ s.r = .parked
     ∨ (s.r = .inRead ∧ (if implClosed s then s.mode = .stay else s.feed = .quiet)) := by
   unfold stepR at h
   split at h <;> (try split at h) <;> (try split at h) <;> simp_all
@@ -171,15 +175,16 @@ theorem inv_terminal_good (s : St) (h : inv s = true) (ht : next s = []) : good 
   have hdone : s.doneClosed = true := by simp [I.doneClosed, hk.1, kPastSignal]
   have hcalls : s.closeCalls = 1 := inv_ret_closed s h hk.1
   have hr : s.mode = .stay ∨ s.r = .dead := by
-    rcases stepR_nil s hR with hr | ⟨_, hd⟩ | ⟨_, hm⟩
+    rcases stepR_nil s hR with hr | hp | ⟨_, hm⟩
     · exact .inr hr
-    · simp [hdone] at hd
+    · have hd := I.rParked hp; simp [hdone] at hd
     · simp [implClosed, hcalls] at hm; exact .inl hm
   have hn : s.n = .absent ∨ s.n = .dead := by
-    rcases stepN_nil s hN with hn | hn | ⟨hn, hd⟩
+    rcases stepN_nil s hN with hn | hn | hn
     · exact .inl hn
     · exact .inr hn
-    · have hp := I.procs
+    · have hd := I.nParked hn
+      have hp := I.procs
       have hnd := I.ncDoneClosed
       cases hnc : s.nc <;> simp [hnc, hn, hk.1, kPastNcDone, hd] at hp hnd
   have ho := stepO_nil s hO
